@@ -85,6 +85,14 @@ PROPS = {
         "quick": {"units": "verif_C18_(seq2|seq3|window|stack)", "timeout": 600},
         "thorough": {"units": "verif_C18_(seq2|seq3|seq4|window|stack)", "timeout": 3000},
     },
+    "C20": {
+        "pkgs": [MOD + "/tcpassembly/tcpreader"],
+        "static": [("tcpassembly/tcpreader", "c20.go")],
+        "bounds": "assembler goroutine delivering 1..2 (quick) / 1..3 (thorough) batches of 1..2 reassemblies (0..2 symbolic bytes each, with or without skip) then completing; consumer goroutine doing up to 3 (5) steps each Read(1 or 2 bytes) or Close, then reading to EOF; LossErrors on/off; all interleavings at channel-operation granularity (bounded-exhaustive scheduler choices)",
+        "outside": "the Go scheduler and memory model below channel-operation granularity; longer histories",
+        "quick": {"timeout": 600, "units": "verif_C20_(read|close)", "params": "verif_C20.*:preempt=0..1"},
+        "thorough": {"timeout": 3000, "params": "verif_C20.*:preempt=0..2"},
+    },
     "C19": {
         "pkgs": [MOD + "/layers"],
         "generate": gen_c19,
